@@ -665,6 +665,11 @@ def rule_clause_templates(ctx):
             for c_ in conditions(b, s_.bb):
                 if c_.is_discr:
                     continue
+                # a test of the framework's data: its subject is computed from the framework (attack iterators, ids, counts) - a flag that
+                # stands for the encoder's mode (`let with_p = !matches!(self, ConflictFreeness)`, a `with_range` parameter) is not
+                _, dcalls_, _ = data_deps(b, c_.place)
+                if not any(re.search(r"^aa::|AAFramework::|ArgumentSet::|utils::label::|Attack::|Iterator::(next|count|any|all|position|find|peek|size_hint)$|::len$|::is_empty$", callee_decl(callee_of(x)) or "") for x in dcalls_):
+                    continue
                 sw = c_.switch
                 tg = [bb for _, bb in sw.node["targets"]] + ([sw.node["otherwise"]] if sw.node.get("otherwise") is not None else [])
                 after = {s_.bb} | b.blocks_reachable_from(s_.bb)
